@@ -16,7 +16,7 @@ func init() {
 		id: "C14",
 		li: levelInfo{
 			Level:       "other",
-			Explanation: "Static table and dominance analysis. The set of command names that can be stored into the handler table and the read-only set are computed from the SSA of the program (every MapUpdate on the table, keys resolved through call sites and constant slices) and compared entry by entry with an embedded Redis <= 5.0 command reference; who-may-call rules over the VTA call graph bound which functions can hand a request to a backend connection; in the host-choosing function every return that can yield a replica address is dominated by IsReadOnly()==true and by a read-strategy comparison that permits replicas. Decides the table/dominance clauses for all command names and all three strategies; slot layouts are runtime data and are not decided. R5 additionally: every address the router returns is taken from the slot entry unless the entry is nil, and replica addresses are not copied out of the routing entry into another structure. R7: no alias of the read buffer escapes into a request (the validated command is the forwarded one; shared with C10.R2). R8: command names are normalised byte-wise (ASCII only). R9 (shared with C12): the key->slot function obligations O1-O5. R4 also forbids the handler of a command that can write to call MakeRequestToHost itself.",
+			Explanation: "Static table and dominance analysis. The set of command names that can be stored into the handler table and the read-only set are computed from the SSA of the program (every MapUpdate on the table, keys resolved through call sites and constant slices) and compared entry by entry with an embedded Redis <= 5.0 command reference; who-may-call rules over the VTA call graph bound which functions can hand a request to a backend connection; in the host-choosing function every return that can yield a replica address is dominated by IsReadOnly()==true and by a read-strategy comparison that permits replicas. Decides the table/dominance clauses for all command names and all three strategies; slot layouts are runtime data and are not decided. R5 additionally: every address the router returns is taken from the slot entry unless the entry is nil, and replica addresses are not copied out of the routing entry into another structure. R7: no alias of the read buffer escapes into a request (the validated command is the forwarded one; shared with C10.R2). R8: command names are normalised byte-wise (ASCII only). R9 (shared with C12): the key->slot function obligations O1-O5. R4 also forbids the handler of a command that can write to call MakeRequestToHost itself. R10 (shared with C13.R11): no function returns memory of a pooled object it has given back (the command name that is looked up is this request's). R6 names a routing table that is replaced as a whole.",
 			Assumptions: []string{
 				"Redis <= 5.0 command table (flags, first-key position) embedded in samlint/refdata.go is the reference",
 			},
